@@ -31,7 +31,9 @@ Inductive call :=
 | CDinuc (X : tensor) (start end_ : Z) (sig : list (list (list (list nat))))
     (* dinucleotide_shuffle through _fast_shuffle.py_func with numpy.random.permutation replaced
        by an enumerating source; sig[example][shuffle][character] = the value it returned *)
-| CDinucObs (X : tensor) (start end_ : Z) (n : nat).
+| CDinucObs (X : tensor) (start end_ : Z) (n : nat)
+| CShufObs (X : tensor) (start end_ : Z) (n : nat).
+    (* shuffle with random_state=None (OS entropy: draws unknown) *)
     (* the compiled dinucleotide_shuffle(X, start, end, n, random_state = seed): draws unknown *)
 
 (* literal abbreviation used by the harness for a tensor row / returned sequence that IS exactly
@@ -154,6 +156,7 @@ Definition spec_ok (c : call) (o : outcome) : bool :=
   | CShuf X s e _ => shuffle_spec X s e o
   | CDinuc X s e _ => dinuc_spec X s e o
   | CDinucObs X s e _ => dinuc_spec X s e o
+  | CShufObs X s e _ => shuffle_spec X s e o
   end.
 
 (* ---- hypotheses on the random draws handed to the model (what numpy guarantees):
@@ -187,6 +190,12 @@ Definition id_sig (X : tensor) (start end_ : Z) (n : nat) : list (list (list (li
   let b := snd (dinuc_bounds X start end_) in
   map (fun x => repeat (id_sigma (tA X) (map argmax (region a b x))) n) (tX X).
 
+Definition id_perms (X : tensor) (start end_ : Z) (n : nat) : list (list nat) :=
+  match shuffle_region X start end_ with
+  | None => repeat [] n
+  | Some (a, b) => repeat (seq 0 (b - a)) n
+  end.
+
 (* for the compiled call the draws are unknown: the model is run on one admissible family
    (every permutation the identity); only its accept/reject behaviour is compared *)
 Definition model (c : call) : outcome :=
@@ -194,6 +203,7 @@ Definition model (c : call) : outcome :=
   | CShuf X s e perms => shuffle_model X s e perms
   | CDinuc X s e sig => dinuc_model X s e sig
   | CDinucObs X s e n => dinuc_model X s e (id_sig X s e n)
+  | CShufObs X s e n => shuffle_model X s e (id_perms X s e n)
   end.
 
 Definition outcome_eqb : outcome -> outcome -> bool := res_eqb (list_eqb batch_eqb).
@@ -201,8 +211,17 @@ Definition outcome_eqb : outcome -> outcome -> bool := res_eqb (list_eqb batch_e
 Definition dinuc_accepts (X : tensor) (start end_ : Z) : bool :=
   valid_t X && (3 <=? snd (dinuc_bounds X start end_) - fst (dinuc_bounds X start end_)).
 
+Definition shuffle_accepts (X : tensor) (start end_ : Z) (n : nat) : bool :=
+  valid_t X && (0 <? n) && match shuffle_region X start end_ with Some _ => true | None => false end.
+
 Definition agree (c : call) (o : outcome) : bool :=
   match c with
+  | CShufObs X s e n =>
+      match o with
+      | Ok Ys => shuffle_accepts X s e n && (length Ys =? n)
+                 && forallb (fun Y => length Y =? length (tX X)) Ys
+      | Err => negb (shuffle_accepts X s e n)
+      end
   | CDinucObs X s e n =>
       match o with
       | Ok Ys => dinuc_accepts X s e && (length Ys =? length (tX X))
